@@ -10,7 +10,7 @@ PROPERTY = "C02"
 def make(case):
     T, cfg = case["T"], case["cfg"]
     try:
-        R.Layout(cfg["align"], 8).size_align(T)
+        H.layout(cfg).size_align(T)
     except R.RefReject:
         return None  # definitions the statement says are rejected: nothing to parse
     cs, cls = H.load(T, cfg)
